@@ -15,6 +15,7 @@
 package ctfe
 
 import (
+	"bytes"
 	"context"
 	"crypto/sha256"
 	"fmt"
@@ -175,13 +176,24 @@ func (s *indirectIssuanceChainService) FixLogLeaf(ctx context.Context, leaf *tri
 func (s *indirectIssuanceChainService) getByHash(ctx context.Context, hash []byte) ([]byte, error) {
 	// Return if found in cache.
 	chain, err := s.cache.Get(ctx, hash)
-	if chain != nil || err != nil {
-		return chain, err
+	if err != nil {
+		return nil, err
+	}
+	if chain != nil {
+		if err := checkIssuanceChainHash(hash, chain); err != nil {
+			return nil, err
+		}
+		return chain, nil
 	}
 
 	// Find in storage if cache miss.
 	chain, err = s.storage.FindByKey(ctx, hash)
 	if err != nil {
+		return nil, err
+	}
+	// The storage is content-addressed: do not hand out (or cache) bytes that
+	// are not the chain which was stored under this hash.
+	if err := checkIssuanceChainHash(hash, chain); err != nil {
 		return nil, err
 	}
 
@@ -219,6 +231,14 @@ func (s *indirectIssuanceChainService) add(ctx context.Context, chain []byte) ([
 	}(ctx, hash, chain)
 
 	return hash, nil
+}
+
+// checkIssuanceChainHash returns an error unless hash is the hash of chain.
+func checkIssuanceChainHash(hash, chain []byte) error {
+	if !bytes.Equal(issuanceChainHash(chain), hash) {
+		return fmt.Errorf("issuance chain does not match its hash %x", hash)
+	}
+	return nil
 }
 
 // issuanceChainHash returns the SHA-256 hash of the chain.
